@@ -64,6 +64,7 @@ type obs struct {
 }
 
 type sweep struct {
+	ls   *lib.Livesim // the instance that serves a
 	a    *lib.TLAsset
 	cfg  lib.TLCfg
 	nows []int64
@@ -86,6 +87,27 @@ func run(c *lib.Ctx) error {
 	if err != nil {
 		return err
 	}
+	// generated layouts (varying segment durations; one whose first segment has exactly the mean duration)
+	var layouts []lib.GenAsset
+	for _, l := range lib.GenCatalogue() {
+		switch l.Asset.Name {
+		case "g_avgfirst_tl", "g_irr7_12800", "g_alt48_tl", "g_60000_frag_tl":
+			layouts = append(layouts, l.Asset)
+		}
+	}
+	gAssets, gls, cleanup, err := lib.GenSetup("c05", layouts)
+	if err != nil {
+		return err
+	}
+	defer cleanup()
+	lsOf := map[*lib.TLAsset]*lib.Livesim{}
+	for _, a := range assets {
+		lsOf[a] = ls
+	}
+	for _, a := range gAssets {
+		lsOf[a] = gls
+	}
+	assets = append(assets, gAssets...)
 	if c.Replay != "" {
 		in, err := lib.LoadReplayInput[c05in](c.Replay)
 		if err != nil {
@@ -95,14 +117,14 @@ func run(c *lib.Ctx) error {
 			if a.Path != in.Asset {
 				continue
 			}
-			s := &sweep{a: a, cfg: in.Cfg, nows: []int64{in.NowMS}, avail: map[int64]int64{}}
+			s := &sweep{ls: lsOf[a], a: a, cfg: in.Cfg, nows: []int64{in.NowMS}, avail: map[int64]int64{}}
 			if in.PrevMS > 0 || in.PrevURL != "" {
 				s.nows = []int64{in.PrevMS, in.NowMS}
 			}
 			if m := regexp.MustCompile(`stop_(\d+)/`).FindStringSubmatch(in.Cfg.Extra); m != nil {
 				fmt.Sscan(m[1], &s.stopS)
 			}
-			fetchSweep(ls, s)
+			fetchSweep(s.ls, s)
 			evalSweep(c, s, 0, nil, nil)
 			for _, f := range c.Res.OracleFailures {
 				fmt.Printf("replay: %s: %s\n", f.Key, f.What)
@@ -142,7 +164,7 @@ func run(c *lib.Ctx) error {
 				// an offset that reaches more than a whole loop ahead
 				cfg = lib.TLCfg{Snr: -1, Tsbd: -1, Mode: modes[rng.Intn(2)], AtoMS: a.LoopMS*(1+rng.Int63n(2)) + segMS + segMS/2}
 			}
-			s := &sweep{a: a, cfg: cfg, avail: map[int64]int64{}}
+			s := &sweep{ls: lsOf[a], a: a, cfg: cfg, avail: map[int64]int64{}}
 			if k > 3 && rng.Intn(4) == 0 {
 				// a stop time a few segments after the swept range begins
 				s.stopS = cfg.StartS + 3*a.LoopMS/1000 + rng.Int63n(20)
@@ -200,7 +222,7 @@ func run(c *lib.Ctx) error {
 		go func(s *sweep) {
 			defer wg.Done()
 			defer func() { <-sem }()
-			fetchSweep(ls, s)
+			fetchSweep(s.ls, s)
 		}(s)
 	}
 	wg.Wait()
